@@ -1124,3 +1124,309 @@ Proof.
   destruct (remlen_fifth pause s1 a b c d r W1 P1 Ha Hb Hc Hd) as [(s2 & E2)|(s2 & E2)]; rewrite E2;
     [left|right]; unfold fin_arm; destruct pause; eexists; reflexivity.
 Qed.
+
+(* every size up to 268 435 455, in its 1-4 byte encoding, is decoded exactly: a packet
+   composed as first byte, varint size, body is framed as such *)
+From MQ Require Import Packets PacketsProofs.
+
+Theorem peek_packet_framed pause s head body rest :
+  wf s -> bytes (pending s) -> len body <= packet_max ->
+  pending s = head :: varint (len body) ++ body ++ rest ->
+  peek_len (rcap s) head (len body) <= rcap s ->
+  (exists s', peek_packet pause s = (PkErr ETimeout false, s'))
+  \/ (exists s',
+        peek_packet pause s =
+          ((if is_big (rcap s) head (len body)
+            then PkBig head (len body) (firstn (N.to_nat (rcap s)) body)
+            else PkOk head body), s')
+        /\ post s s' (body ++ rest)
+        /\ firstn (N.to_nat (peek_len (rcap s) head (len body))) (rbuf s')
+           = firstn (N.to_nat (peek_len (rcap s) head (len body))) body
+        /\ peek_len (rcap s) head (len body) <= len (rbuf s')).
+Proof.
+  intros W Hb Hm P Hn. apply peek_packet_spec; auto.
+  rewrite P. apply frame_packet_framed; [reflexivity|exact Hm].
+Qed.
+
+(* ------------------------------------------------------------------ *)
+(* no deadline expiry on the tape: no deadline-expiry error            *)
+
+Definition nt (s : rst) : Prop :=
+  Forall (fun a => a <> RTimeout) (rtape s) /\ rerr s <> Some RTimeout.
+
+Lemma rerror_of_timeout a : rerror_of a = ETimeout -> a = RTimeout.
+Proof. destruct a; cbn; intros H; try discriminate; reflexivity. Qed.
+
+Lemma nt_arm s a : nt s -> nt (rst_arm s a).
+Proof. intros [A B]. split; assumption. Qed.
+
+Lemma nt_buf s b : nt s -> nt (rst_with_buf s b).
+Proof. intros [A B]. split; assumption. Qed.
+
+Lemma nt_err_none s : nt s -> nt (rst_with_err s None).
+Proof. intros [A B]. split; [assumption|discriminate]. Qed.
+
+Lemma nt_arm_if s (c a : bool) : nt s -> nt (if c then rst_arm s a else s).
+Proof. destruct c; [apply nt_arm|auto]. Qed.
+
+Lemma conn_read_nt s want a s' : nt s -> conn_read s want = Some (a, s') ->
+  a <> RTimeout /\ nt s'.
+Proof.
+  intros [A B]. unfold conn_read. destruct (rtape s) as [|x t] eqn:E; [discriminate|].
+  inversion A as [|? ? Ax At]; subst.
+  destruct x as [bs| | | |]; try contradiction;
+    try (intros H; injection H as <- <-; split; [discriminate|split; assumption]).
+  destruct (want <? len bs); intros H; injection H as <- <-; (split; [discriminate|]); split;
+    cbn [rtape rerr]; auto.
+  constructor; [discriminate|assumption].
+Qed.
+
+Lemma fill_nt s s' : nt s -> fill s = Some s' -> nt s'.
+Proof.
+  intros N. unfold fill. destruct (conn_read s (rcap s - len (rbuf s))) as [[a s1]|] eqn:E; [|discriminate].
+  destruct (conn_read_nt _ _ _ _ N E) as [Ha N1].
+  destruct a; intros H; injection H as <-; try (apply nt_buf; exact N1);
+    try contradiction; (split; [apply N1|cbn [rst_with_err rerr]; congruence]).
+Qed.
+
+Lemma read_byte_nt s r s' : nt s -> read_byte s = (r, s') -> nt s' /\ r <> inr ETimeout.
+Proof.
+  intros N. unfold read_byte.
+  destruct (rbuf s) as [|b bs].
+  - destruct (rerr s) as [e|] eqn:Ee.
+    + intros H; injection H as <- <-. split; [apply nt_err_none; exact N|].
+      intros H; injection H as H. apply rerror_of_timeout in H. subst e. destruct N as [_ N]. contradiction.
+    + destruct (fill s) as [s1|] eqn:Ef.
+      * pose proof (fill_nt _ _ N Ef) as N1.
+        destruct (rbuf s1) as [|b bs].
+        -- destruct (rerr s1) as [e|] eqn:Ee1.
+           ++ intros H; injection H as <- <-. split; [apply nt_err_none; exact N1|].
+              intros H; injection H as H. apply rerror_of_timeout in H. subst e.
+              destruct N1 as [_ N1]. contradiction.
+           ++ intros H; injection H as <- <-. split; [exact N1|discriminate].
+        -- intros H; injection H as <- <-. split; [apply nt_buf; exact N1|discriminate].
+      * intros H; injection H as <- <-. split; [exact N|discriminate].
+  - intros H; injection H as <- <-. split; [apply nt_buf; exact N|discriminate].
+Qed.
+
+Lemma peek_fill_nt fuel : forall s n s', nt s -> peek_fill fuel s n = Some s' -> nt s'.
+Proof.
+  induction fuel as [|f IH]; intros s n s' N; cbn [peek_fill].
+  - intros H; injection H as <-. exact N.
+  - destruct (_ && _ && _).
+    + destruct (fill s) as [s1|] eqn:Ef; [|discriminate]. apply IH. eapply fill_nt; eassumption.
+    + intros H; injection H as <-. exact N.
+Qed.
+
+Lemma peek_nt s n p e s' : nt s -> peek s n = ((p, e), s') -> nt s' /\ e <> Some ETimeout.
+Proof.
+  intros N. unfold peek.
+  destruct (peek_fill (S (tape_weight (rtape s))) s n) as [s1|] eqn:E.
+  - pose proof (peek_fill_nt _ _ _ _ N E) as N1.
+    destruct (rcap s1 <? n); [intros H; injection H as _ <- <-; split; [exact N1|discriminate]|].
+    destruct (len (rbuf s1) <? n).
+    + destruct (rerr s1) as [x|] eqn:Ex; intros H; injection H as _ <- <-.
+      * split; [apply nt_err_none; exact N1|]. intros H; injection H as H.
+        apply rerror_of_timeout in H. subst x. destruct N1 as [_ N1]. contradiction.
+      * split; [exact N1|discriminate].
+    + intros H; injection H as _ <- <-. split; [exact N1|discriminate].
+  - intros H; injection H as _ <- <-. split; [exact N|discriminate].
+Qed.
+
+Lemma remlen_nt fuel : forall pause s shift size r s',
+  nt s -> remlen_loop fuel pause s shift size = (r, s') ->
+  nt s' /\ forall p, r <> inr (ETimeout, p).
+Proof.
+  induction fuel as [|f IH]; intros pause s shift size r s' N; cbn [remlen_loop].
+  - intros H; injection H as <- <-. split; [exact N|discriminate].
+  - set (s0 := if (len (rbuf s) =? 0) && pause then rst_arm s true else s).
+    assert (N0 : nt s0) by (apply nt_arm_if; exact N).
+    destruct (read_byte s0) as [[b|e] s1] eqn:E; destruct (read_byte_nt _ _ _ N0 E) as [N1 Hr].
+    + destruct (b <? 128); [intros H; injection H as <- <-; split; [exact N1|discriminate]|].
+      destruct (21 <=? shift); [intros H; injection H as <- <-; split; [exact N1|discriminate]|].
+      apply IH. exact N1.
+    + intros H; injection H as <- <-. split; [exact N1|]. intros p H. injection H as H _.
+      apply Hr. f_equal. destruct e; cbn in H; try discriminate; reflexivity.
+Qed.
+
+Lemma slice_nt fuel : forall pause s head size lastN r s',
+  nt s -> slice_loop fuel pause s head size lastN = (r, s') ->
+  nt s' /\ forall p, r <> PkErr ETimeout p.
+Proof.
+  induction fuel as [|f IH]; intros pause s head size lastN r s' N; cbn [slice_loop].
+  - intros H; injection H as <- <-. split; [exact N|discriminate].
+  - set (s0 := if (len (rbuf s) <? size) && pause then rst_arm s true else s).
+    assert (N0 : nt s0) by (apply nt_arm_if; exact N).
+    destruct (peek s0 _) as [[p e] s1] eqn:E. destruct (peek_nt _ _ _ _ _ N0 E) as [N1 He].
+    destruct e as [e|].
+    + destruct e; try contradiction (He eq_refl);
+        intros H; injection H as <- <-; (split; [exact N1|discriminate]).
+    + destruct ((head / 16 =? 3) && _); intros H; injection H as <- <-; (split; [exact N1|discriminate]).
+Qed.
+
+Lemma peek_packet_nt pause s r s' : nt s -> peek_packet pause s = (r, s') ->
+  nt s' /\ forall p, r <> PkErr ETimeout p.
+Proof.
+  intros N. rewrite peek_packet_unfold.
+  destruct (read_byte s) as [[b|e] s1] eqn:E; destruct (read_byte_nt _ _ _ N E) as [N1 Hr].
+  - destruct (remlen_loop 5 pause s1 0 0) as [[size|[e proto]] s2] eqn:E2;
+      destruct (remlen_nt _ _ _ _ _ _ _ N1 E2) as [N2 Hr2].
+    + destruct (slice_loop _ pause s2 b size 0) as [r3 s3] eqn:E3.
+      destruct (slice_nt _ _ _ _ _ _ _ _ N2 E3) as [N3 Hr3].
+      unfold fin_arm. destruct pause; cbn [fst snd]; intros H; injection H as <- <-;
+        (split; [try apply nt_arm; exact N3|exact Hr3]).
+    + unfold fin_arm. destruct pause; cbn [fst snd]; intros H; injection H as <- <-;
+        (split; [try apply nt_arm; exact N2|]); intros p H; injection H as -> _; exact (Hr2 proto eq_refl).
+  - destruct e; intros H; injection H as <- <-; (split; [exact N1|]); intros p H; try discriminate.
+    contradiction (Hr eq_refl).
+Qed.
+
+Lemma bufio_discard_nt fuel : forall s remain done d e s',
+  nt s -> bufio_discard fuel s remain done = ((d, e), s') -> nt s' /\ e <> Some ETimeout.
+Proof.
+  induction fuel as [|f IH]; intros s remain done d e s' N; cbn [bufio_discard].
+  - intros H; injection H as _ <- <-. split; [exact N|discriminate].
+  - destruct (remain =? 0); [intros H; injection H as _ <- <-; split; [exact N|discriminate]|].
+    assert (S1 : forall s1, nt s1 ->
+      (if remain - N.min (len (rbuf s1)) remain =? 0
+       then ((done + N.min (len (rbuf s1)) remain, None),
+             rst_with_buf s1 (skipn (N.to_nat (N.min (len (rbuf s1)) remain)) (rbuf s1)))
+       else match rerr (rst_with_buf s1 (skipn (N.to_nat (N.min (len (rbuf s1)) remain)) (rbuf s1))) with
+            | Some e0 => ((done + N.min (len (rbuf s1)) remain, Some (rerror_of e0)),
+                          rst_with_err (rst_with_buf s1 (skipn (N.to_nat (N.min (len (rbuf s1)) remain)) (rbuf s1))) None)
+            | None => bufio_discard f (rst_with_buf s1 (skipn (N.to_nat (N.min (len (rbuf s1)) remain)) (rbuf s1)))
+                        (remain - N.min (len (rbuf s1)) remain) (done + N.min (len (rbuf s1)) remain)
+            end) = ((d, e), s') -> nt s' /\ e <> Some ETimeout).
+    { intros s1 N1. pose proof (nt_buf s1 (skipn (N.to_nat (N.min (len (rbuf s1)) remain)) (rbuf s1)) N1) as N2.
+      destruct (_ =? 0); [intros H; injection H as _ <- <-; split; [exact N2|discriminate]|].
+      destruct (rerr _) as [x|] eqn:Ex.
+      - intros H; injection H as _ <- <-. split; [apply nt_err_none; exact N2|].
+        intros H; injection H as H. apply rerror_of_timeout in H. subst x.
+        destruct N2 as [_ N2]. contradiction.
+      - apply IH. exact N2. }
+    destruct (rbuf s) as [|x xs] eqn:Eb.
+    + destruct (fill s) as [s1|] eqn:Ef.
+      * apply S1. eapply fill_nt; eassumption.
+      * intros H; injection H as _ <- <-. split; [exact N|discriminate].
+    + apply S1. exact N.
+Qed.
+
+Lemma discard_loop_nt fuel : forall pause s n e s',
+  nt s -> discard_loop fuel pause s n = (e, s') -> nt s' /\ e <> Some ETimeout.
+Proof.
+  induction fuel as [|f IH]; intros pause s n e s' N; cbn [discard_loop].
+  - intros H; injection H as <- <-. split; [exact N|discriminate].
+  - set (s0 := if pause then rst_arm s true else s).
+    assert (N0 : nt s0) by (apply nt_arm_if; exact N).
+    destruct (bufio_discard _ s0 n 0) as [[d x] s1] eqn:E.
+    destruct (bufio_discard_nt _ _ _ _ _ _ _ N0 E) as [N1 Hx].
+    destruct x as [x|]; [|intros H; injection H as <- <-; split; [exact N1|discriminate]].
+    destruct x; try contradiction (Hx eq_refl);
+      intros H; injection H as <- <-; (split; [exact N1|discriminate]).
+Qed.
+
+Lemma client_discard_nt pause s n e s' :
+  nt s -> client_discard pause s n = (e, s') -> nt s' /\ e <> Some ETimeout.
+Proof.
+  intros N. unfold client_discard.
+  destruct (discard_loop _ pause s n) as [x s1] eqn:E.
+  destruct (discard_loop_nt _ _ _ _ _ _ N E) as [N1 Hx].
+  destruct pause; cbn [fst snd]; intros H; injection H as <- <-;
+    (split; [try apply nt_arm; exact N1|exact Hx]).
+Qed.
+
+Lemma bufio_read_nt s want p e s' :
+  nt s -> bufio_read s want = ((p, e), s') -> nt s' /\ e <> Some ETimeout.
+Proof.
+  intros N. unfold bufio_read. destruct (rbuf s) as [|x xs] eqn:Eb.
+  - destruct (rerr s) as [x|] eqn:Ex.
+    + intros H; injection H as _ <- <-. split; [apply nt_err_none; exact N|].
+      intros H; injection H as H. apply rerror_of_timeout in H. subst x. destruct N as [_ N]. contradiction.
+    + destruct (rcap s <=? want).
+      * destruct (conn_read s want) as [[a s1]|] eqn:E.
+        -- destruct (conn_read_nt _ _ _ _ N E) as [Ha N1].
+           destruct a; intros H; injection H as _ <- <-; (split; [exact N1|]); try discriminate;
+             try contradiction.
+        -- intros H; injection H as _ <- <-. split; [exact N|discriminate].
+      * destruct (conn_read s (rcap s)) as [[a s1]|] eqn:E.
+        -- destruct (conn_read_nt _ _ _ _ N E) as [Ha N1].
+           destruct a; intros H; injection H as _ <- <-; (split; [try apply nt_buf; exact N1|]);
+             try discriminate; try contradiction.
+        -- intros H; injection H as _ <- <-. split; [exact N|discriminate].
+  - intros H; injection H as _ <- <-. split; [apply nt_buf; exact N|discriminate].
+Qed.
+
+Lemma read_all_loop_nt fuel : forall pause s remain acc r s',
+  nt s -> read_all_loop fuel pause s remain acc = (r, s') -> nt s' /\ r <> inr ETimeout.
+Proof.
+  induction fuel as [|f IH]; intros pause s remain acc r s' N; cbn [read_all_loop].
+  - intros H; injection H as <- <-. split; [exact N|discriminate].
+  - destruct (remain =? 0); [intros H; injection H as <- <-; split; [exact N|discriminate]|].
+    set (s0 := if (len (rbuf s) =? 0) && pause then rst_arm s true else s).
+    assert (N0 : nt s0) by (apply nt_arm_if; exact N).
+    destruct (bufio_read s0 remain) as [[bs e] s1] eqn:E.
+    destruct (bufio_read_nt _ _ _ _ _ N0 E) as [N1 He].
+    destruct e as [e|]; [|apply IH; exact N1].
+    destruct (remain - len bs =? 0); intros H; injection H as <- <-; (split; [exact N1|]); try discriminate.
+    intros H; injection H as H. apply He. f_equal. destruct e; cbn in H; try discriminate; reflexivity.
+Qed.
+
+Lemma read_all_nt pause s size r s' :
+  nt s -> read_all pause s size = (r, s') -> nt s' /\ r <> inr ETimeout.
+Proof.
+  intros N. unfold read_all.
+  destruct (read_all_loop _ pause s size []) as [x s1] eqn:E.
+  destruct (read_all_loop_nt _ _ _ _ _ _ _ N E) as [N1 Hx].
+  destruct pause; cbn [fst snd]; intros H; injection H as <- <-;
+    (split; [try apply nt_arm; exact N1|exact Hx]).
+Qed.
+
+Lemma end_of_err_timeout e p : end_of_err e p = EndTimeout -> e = ETimeout.
+Proof. destruct e; cbn; intros H; try discriminate; reflexivity. Qed.
+
+Theorem read_stream_nt fuel : forall pause mode s,
+  nt s -> run_end (read_stream fuel pause mode s) <> EndTimeout.
+Proof.
+  induction fuel as [|f IH]; intros pause mode s N; cbn [read_stream]; [discriminate|].
+  destruct (peek_packet pause s) as [r s1] eqn:E.
+  destruct (peek_packet_nt _ _ _ _ N E) as [N1 Hr].
+  assert (D : forall s1 n, nt s1 -> nt (snd (bufio_discard 1 s1 n 0))).
+  { intros s2 n N2. destruct (bufio_discard 1 s2 n 0) as [[d e] s3] eqn:Ed.
+    exact (proj1 (bufio_discard_nt _ _ _ _ _ _ _ N2 Ed)). }
+  destruct r as [head body|head size p|e proto|].
+  - rewrite run_cons. cbn [run_end fst snd]. apply IH. apply D. exact N1.
+  - destruct mode.
+    + destruct (pub_split head p) as [[[t id] i]|]; [|discriminate].
+      destruct (read_all pause _ _) as [[content|e] s3] eqn:Er;
+        destruct (read_all_nt _ _ _ _ _ (D _ _ N1) Er) as [N3 Hx].
+      * rewrite run_cons. cbn [run_end fst snd]. apply IH. exact N3.
+      * cbn [run_end fst snd]. intros H. apply end_of_err_timeout in H. subst e. contradiction.
+    + destruct (pub_split head p) as [[[t id] i]|]; [|discriminate].
+      destruct (client_discard pause _ _) as [[e|] s3] eqn:Er;
+        destruct (client_discard_nt _ _ _ _ _ (D _ _ N1) Er) as [N3 Hx].
+      * cbn [run_end fst snd]. intros H. apply end_of_err_timeout in H. subst e. contradiction.
+      * rewrite run_cons. cbn [run_end fst snd]. apply IH. exact N3.
+    + destruct (client_discard pause s1 size) as [[e|] s3] eqn:Er;
+        destruct (client_discard_nt _ _ _ _ _ N1 Er) as [N3 Hx].
+      * cbn [run_end fst snd]. intros H. apply end_of_err_timeout in H. subst e. contradiction.
+      * rewrite run_cons. cbn [run_end fst snd]. apply IH. exact N3.
+  - cbn [run_end fst snd]. intros H. apply end_of_err_timeout in H. subst e. exact (Hr proto eq_refl).
+  - discriminate.
+Qed.
+
+(* Unfragmented exactness and, more generally, any cutting without deadline expiries:
+   the run observes the entire stream. *)
+Theorem read_stream_no_expiry pause mode l fuel s :
+  wf s -> Forall (fun a => a <> RTimeout) (rtape s) ->
+  bytes (pending s) -> framed l (pending s) ->
+  Forall (servable (rcap s) mode) l -> (length l < fuel)%nat ->
+  let r := read_stream fuel pause mode s in
+  run_end r = EndScript /\ run_obs r = map (expect_obs (rcap s) mode) l
+  /\ pending (run_state r) = [].
+Proof.
+  intros W T Hb F Sv Hf. cbv zeta.
+  assert (N : nt s) by (split; [exact T|rewrite (wf_err _ W); discriminate]).
+  destruct (read_stream_spec pause mode l fuel s W Hb F Sv Hf) as [(He & _)|(He & Ho & Hp & _)].
+  - exfalso. exact (read_stream_nt fuel pause mode s N He).
+  - auto.
+Qed.
